@@ -8,14 +8,14 @@ Import ListNotations.
 (* The refinement, for the fragment "yields and loops at the top level of the body" (wf_body: every
    top-level statement is a yield, a statement free of yields and loops, a while/for loop whose
    body is free of yields and loops, or a while loop whose body is free of yields and loops up to
-   one trailing yield - the idiom `while (c) { ...; yield; }`; loop variables are not parameters and
-   are not mentioned after their loop).  For every such body, every argument list, every await oracle aw and every loop
+   one trailing yield - the idiom `while (c) { ...; yield; }`; loop variables are not parameters;
+   since fix 4fa4431 they may be reused by later loops).  For every such body, every argument list, every await oracle aw and every loop
    bound: if the body run alone ends, there is a number n of step grants after which the task is
    complete, and for EVERY number m >= n of grants the concatenated output of the steps, the result,
-   and the locals off the loop variables are exactly those of the body run alone.
+   and all locals (as a map) are exactly those of the body run alone.
    Missing for the full law (all bodies): yield inside a block / branch, yield inside a loop body
-   other than as the last statement of a while body, a loop inside a branch or inside another loop,
-   a loop variable reused later - each refuted below. *)
+   other than as the last statement of a while body, a loop inside a branch or inside another loop
+   - each refuted below. *)
 Theorem resume_refines_sequential_partial :
   forall (aw : nat -> Z -> Z) (fuel : nat) body args ls' out r,
     wf_body (map fst args) body = true ->
@@ -24,7 +24,7 @@ Theorem resume_refines_sequential_partial :
       (forall m, n <= m -> mrun aw fuel m (spawn body args) = (t', ev)) /\
       t_done t' = true /\ t_stuck t' = false /\ outputs_of ev = out /\
       t_ret t' = ret_of r None /\
-      (r = SNormal -> forall y, ~ In y (flat_map for_var body) -> lookup y (t_loc t') = lookup y ls').
+      (r = SNormal -> forall y, lookup y (t_loc t') = lookup y ls').
 Proof. exact resume_refines_sequential_l. Qed.
 Print Assumptions resume_refines_sequential_partial.
 
@@ -134,12 +134,6 @@ Theorem resume_refuted_nested_loops : violates w_nested_loops [(O, 0%Z)].
 Proof. exact w_nested_loops_l. Qed.
 Print Assumptions resume_refuted_nested_loops.
 
-(* new: the loop variable survives a suspended for loop, so a later loop over the same name skips
-   its initialiser *)
-Theorem resume_refuted_for_var_reuse : violates w_for_var_reuse [(O, 0%Z)].
-Proof. exact w_for_var_reuse_l. Qed.
-Print Assumptions resume_refuted_for_var_reuse.
-
 (* new: an old-style enum result (ReturnException of TYPE_ENUM) is not delivered: await yields a
    struct-kind value whose numeric reading is 0, and value 1 is relabelled Option::None *)
 Theorem await_enum_refuted :
@@ -156,5 +150,5 @@ Example fragment_example :
   let '(t, ev) := mrun aw 10 30 (spawn ex_fragment [(O, 5%Z); (1, 2%Z); (2, 2%Z)]) in
   let '(l, o, r) := spec_run aw 10 ex_fragment [(O, 5%Z); (1, 2%Z); (2, 2%Z)] in
   t_done t = true /\ outputs_of ev = o /\ t_ret t = Some 108%Z /\ r = SReturn_ 108%Z /\
-  o = [(0, 5%Z); (1, 1%Z); (2, 5%Z); (3, 100%Z); (3, 101%Z); (4, 1%Z); (4, 0%Z)].
+  o = [(0, 5%Z); (1, 1%Z); (2, 5%Z); (3, 100%Z); (3, 101%Z); (5, 0%Z); (4, 1%Z); (4, 0%Z)].
 Proof. vm_compute. repeat split; reflexivity. Qed.
